@@ -275,11 +275,22 @@ def _case(i):
         prog = prog + [(0, 1, 65, None), (1, 1, rng.choice([1, 2]), None)]
     else:
         name, prog = gen.gen_case(rng, allow_input=False, weights={'random': 0.3, 'template': 0.3, 'mutant': 0.4})
+    very_deep = (i % 100 == 37)
+    if very_deep:
+        # thousands of steps in ONE run stopped by a breakpoint, then a rewind of more than a thousand steps (history
+        # bounds, trimmed or compacted snapshots)
+        deep, replay = False, False
+        for _ in range(12):
+            name, prog = 'tmpl:countdown(very deep)', gen.tmpl_countdown(rng, iters=rng.choice([600, 800, 1100, 1400]))
+            prog = prog + [(0, 1, 65, None), (1, 1, rng.choice([1, 2]), None)]
+            m_, ro_, re__, rend_ = P.admit(prog, '', Limits(steps=20000, out_chars=10 ** 6))
+            if not rend_.startswith('notadmitted') and not (BAD_OUT & set(ro_ + re__)):
+                break
     empty = (i % 97 == 5)
     if empty:
         # a file without a single command: the debugger has nothing to step and must end at once, whatever is typed
         name, prog, deep, replay = 'empty_program', [], False, False
-    lim = Limits(steps=1500)
+    lim = Limits(steps=20000, out_chars=10 ** 6) if very_deep else Limits(steps=1500)
     m, ro, re_, rend = P.admit(prog, '', lim)
     if rend.startswith('notadmitted') or m.st['stdin_reads']:
         res['status'] = 'reject:' + ('input' if m.st['stdin_reads'] else 'budget')
@@ -298,6 +309,10 @@ def _case(i):
         res['status'] = 'reject:render'
         return res
     script = gen_script(rng, len(prog), deep)
+    if very_deep:
+        n = len(prog)
+        nb = rng.choice([1030, 1100, 2050, 2100, m.steps + 3, m.steps - 5])
+        script = ['b %d' % (n - 2), rng.choice(['r', 'run'])] + ['p'] * nb + ['s', 'n', 's'] + (['p'] * rng.randint(1, 1100) + ['s', 'n'] if rng.random() < 0.5 else [])
     if replay:
         total = m.steps
         script = []
@@ -322,6 +337,8 @@ def _case(i):
         last_eol = '' if (script and script[-1].strip() and rng.random() < 0.2) else eol
         p = C.run_proc([C.HYEONG, 'debug', '--color', 'never', path], (eol.join(script) + last_eol).encode() if script else b'', cpu=20)
         res['hist'] = stats
+        if very_deep:
+            stats['very_deep_sessions'] = 1
         if empty:
             stats['empty_program_sessions'] = 1
         if replay:
@@ -423,7 +440,7 @@ def main(tier, seed):
     assumptions = ['debugger chatter wording is not compared; only semantic events, exit status and absence of crash',
                    'the model ignores `break N` for N >= program length (it must merely not crash)',
                    'programs are input-free and their output avoids newline, [ and > so that transcripts split unambiguously']
-    minimum = {'sessions': (ev, 250), 'replay sessions over programs with a ♡ return': (hist.get('replay_sessions_with_heart_return', 0), 40), 'previous': (hist.get('previous', 0), 300), 'run': (hist.get('run', 0), 200),
+    minimum = {'sessions': (ev, 250), 'runs of thousands of steps followed by > 1000 back-steps': (hist.get('very_deep_sessions', 0), 10), 'replay sessions over programs with a ♡ return': (hist.get('replay_sessions_with_heart_return', 0), 40), 'previous': (hist.get('previous', 0), 300), 'run': (hist.get('run', 0), 200),
                'state dumps': (hist.get('state', 0), 500), 'breakpoints beyond length': (hist.get('break_beyond_len', 0), 50),
                'run stopped by breakpoint': (hist.get('run_stop_breakpoint', 0), 30),
                'sessions with >= 64 consecutive back-steps': (hist.get('sessions_with_back_chain>=64', 0), 10),
